@@ -370,7 +370,7 @@ def run(prog: Program, roots=None, prop="C14", rid_prefix="R-C14") -> Results:
         from sa.rules import c08 as _c08
         _eng, _rev, _sums = _c08.analyse_roots(prog, _c08.MAPPING_ROOTS)
         _closure, _bk = _c08.closure_of(_eng, _c08.MAPPING_ROOTS)
-        _c08.fallback_handlers(prog, res, _closure, rid=f"{rid_prefix}-11")
+        _c08.fallback_handlers(prog, res, _closure, rid=f"{rid_prefix}-11", eng=_eng, bykey=_bk)
         from sa.rules.c01 import content_findings
         content_findings(prog, res, f"{rid_prefix}-10", only_fields=lambda pr, c, k: k in ("values", "local_variables", "scope", "expressions"),
                          describe="binding-container")
